@@ -33,6 +33,13 @@ MODES = [
     ('off2', 'bound(false)', 'off', None),
     ('off3', 'bound = ""', 'off', None),
     ('auto2', 'bound = true', 'auto', None),
+    # a predicate list laid out like a where-clause: trailing comma, line breaks; a blank string
+    ('c2st', 'bound = "%s,"' % ', '.join(CUSTOM2), 'custom', CUSTOM2),
+    ('c1st', 'bound("%s ,")' % CUSTOM1[0], 'custom', CUSTOM1),
+    ('c2lt', 'bound(%s,)' % ', '.join(CUSTOM2), 'custom', CUSTOM2),
+    ('c2sn', 'bound = "\n    %s,\n"' % ',\n    '.join(CUSTOM2), 'custom', CUSTOM2),
+    ('off4', 'bound = " "', 'off', None),
+    ('off5', 'bound("")', 'off', None),
 ]
 P = K.TRAIT_PATH
 # request kinds: (id, trait metas builder, expected impls [(trait path, bound trait or None, supertraits)])
@@ -114,7 +121,7 @@ def generate(tier):
                     for mode in MODES:
                         if rid == 'Deref' and mode[0] != 'absent':
                             continue
-                        if tier == 'quick' and mode[0] in ('c1s', 'off2', 'auto2') and wh[0] == 'w2':
+                        if tier == 'quick' and mode[0] in ('c1s', 'off2', 'auto2', 'c1st', 'c2lt', 'off5') and wh[0] != 'w0':
                             continue
                         ms = [fill(m, mode[1]) for m in metas]
                         markers, markers1 = '', ''
